@@ -9,6 +9,7 @@ CONSTANTS
   MVals = {3}
   OVals = {101, 102}
   WithDelSpace = TRUE
+  WithChild = TRUE
   OpenFindings = {}
   MaxOps = 3
   Dump = TRUE
